@@ -240,7 +240,7 @@ func (x *Exec) opHostile(st *Step) {
 	if st.Rel == "stranger" {
 		src = x.stranger()
 	}
-	_, _ = src.WriteTo(data, x.w.srvAddr)
+	_, _ = src.WriteTo(data, x.w.srvFor(src))
 	x.settle()
 	x.waitCallbacks()
 	o := x.observe()
